@@ -3,8 +3,8 @@ from ..codec import Rng, expand, spec_len
 from .. import oracle as o
 
 ID = 'C15'
-RULE = ('field: straight-line programs over the public operators inside the documented operand discipline (add/sub/neg take reduced operands; their results may feed '
-        'mul/square/invert/pow/encoding), every register compared with Python integers mod p (canonical bytes, sign, zero test, ==), inputs from boundary and limb-boundary '
+RULE = ('field: straight-line programs over the public operators inside the operand discipline the crate itself uses (ref10 magnitude units: add/sub add the units of their operands and every consumer '
+        '- mul, square, invert, pow, encoding, sign/zero tests, == - receives at most 3 units), every register compared with Python integers mod p (canonical bytes, sign, zero test, ==), inputs from boundary and limb-boundary '
         'values, plus algebraic-identity programs that reach zero by different routes; scalars: wide reduction on 0, L-1, L, L+1, kL(+-1), every 2^k, sparse and dense patterns, '
         'canonical decoder on values around L and byte-reversed L; group: fixed-base multiplication for every single-nibble scalar and boundary scalars, double-scalar '
         'multiplication incl. every small odd b and 2^k-j, doubling/addition/conversion chains, decode(encode(P)), every precomputed table entry and every select() argument '
@@ -26,34 +26,38 @@ FE_INPUTS = [0, 1, 2, 19, P - 1, P, P + 1, P - 2, P + 18, (1 << 255) - 1, (1 << 
 
 
 def fe_program(rng, nops):
-    """random straight-line program; returns list of steps. level: 0 reduced, 1 one add/sub/neg of reduced"""
-    steps, lvl = [], []
+    """random straight-line program.  Magnitude bookkeeping in ref10 "units" (1 unit = a freshly carried element:
+    from_bytes / mul / square / invert / pow output): add/sub add the units of their operands, neg keeps them; every consumer
+    (mul, square, ..., encoding, sign/zero tests, ==) is only ever given <= 3 units, which is what the crate's own group
+    formulas do (e.g. d = zz+zz; z3 = d + c; then z3 * t)."""
+    steps, units = [], []
     nin = rng.rng(2, 5)
     for _ in range(nin):
         v = rng.choice(FE_INPUTS) if rng.below(3) else int.from_bytes(rng.bytes(32), 'little')
-        steps.append('in.' + le32(v)); lvl.append(0)
+        steps.append('in.' + le32(v)); units.append(1)
     for _ in range(nops):
         r = rng.below(100)
-        l0 = [i for i, l in enumerate(lvl) if l == 0]
-        anyr = list(range(len(lvl)))
-        if r < 18:
-            steps.append('add.%d.%d' % (rng.choice(l0), rng.choice(l0))); lvl.append(1)
-        elif r < 36:
-            steps.append('sub.%d.%d' % (rng.choice(l0), rng.choice(l0))); lvl.append(1)
-        elif r < 42:
-            steps.append('neg.%d' % rng.choice(l0)); lvl.append(1)
+        anyr = list(range(len(units)))
+        if r < 42:
+            a = rng.choice(anyr)
+            cands = [i for i in anyr if units[a] + units[i] <= 3]
+            if r < 36 and cands:
+                b = rng.choice(cands)
+                steps.append('%s.%d.%d' % ('add' if r < 18 else 'sub', a, b)); units.append(units[a] + units[b])
+            else:
+                steps.append('neg.%d' % a); units.append(units[a])
         elif r < 66:
-            steps.append('mul.%d.%d' % (rng.choice(anyr), rng.choice(anyr))); lvl.append(0)
+            steps.append('mul.%d.%d' % (rng.choice(anyr), rng.choice(anyr))); units.append(1)
         elif r < 78:
-            steps.append('sq.%d' % rng.choice(anyr)); lvl.append(0)
+            steps.append('sq.%d' % rng.choice(anyr)); units.append(1)
         elif r < 84:
-            steps.append('sqn.%d.%d' % (rng.choice(anyr), rng.choice([1, 2, 3, 5, 10, 50]))); lvl.append(0)
+            steps.append('sqn.%d.%d' % (rng.choice(anyr), rng.choice([1, 2, 3, 5, 10, 50]))); units.append(1)
         elif r < 90:
-            steps.append('sq2.%d' % rng.choice(anyr)); lvl.append(0)
+            steps.append('sq2.%d' % rng.choice(anyr)); units.append(1)
         elif r < 94:
-            steps.append('inv.%d' % rng.choice(anyr)); lvl.append(0)
+            steps.append('inv.%d' % rng.choice(anyr)); units.append(1)
         elif r < 97:
-            steps.append('pow.%d' % rng.choice(anyr)); lvl.append(0)
+            steps.append('pow.%d' % rng.choice(anyr)); units.append(1)
         else:
             steps.append('eq.%d.%d' % (rng.choice(anyr), rng.choice(anyr)))
     return steps
@@ -66,6 +70,8 @@ def identity_programs(rng):
     x, y, z = rv(), rv(), rv()
     zero = le32(0); one = le32(1)
     progs = [
+        # distributivity without the intermediate carry: d = x*(y+z) - (x*y + x*z) == 0 as a 3-unit value; also (x*y + x*z) - x*(y+z)
+        ['in.' + x, 'in.' + y, 'in.' + z, 'in.' + zero, 'add.1.2', 'mul.0.4', 'mul.0.1', 'mul.0.2', 'add.6.7', 'sub.5.8', 'eq.9.3', 'sub.8.5', 'eq.10.3', 'eq.5.8'],
         # d = x*(y+z) - (x*y + x*z) == 0      regs: 0 x,1 y,2 z,3 zero,4 y+z,5 x*(y+z),6 xy,7 xz,8 xy+xz(l1) -> need reduced: multiply by one
         ['in.' + x, 'in.' + y, 'in.' + z, 'in.' + zero, 'in.' + one, 'add.1.2', 'mul.0.5', 'mul.0.1', 'mul.0.2', 'add.7.8', 'mul.9.4', 'sub.6.10', 'eq.11.3', 'mul.11.4', 'eq.12.3'],
         # x - x, -0, x + (-x) via mul by one
